@@ -1,6 +1,7 @@
 //! avrodrive: runs cases (one per stdin line) against the real serde_avro_fast
 //! crate in /repo and prints one canonical result per line.
 
+mod container;
 mod dtarget;
 mod io;
 mod schema;
@@ -15,7 +16,7 @@ fn esc(s: &str) -> String {
 	hex(s.as_bytes())
 }
 
-fn get_schema(sx: &Sx) -> Result<serde_avro_fast::Schema, String> {
+pub fn get_schema(sx: &Sx) -> Result<serde_avro_fast::Schema, String> {
 	// (json xTEXT) | (schema ...)
 	let (h, a) = sx.head()?;
 	match h {
@@ -176,6 +177,8 @@ fn run_case(line: &str) -> String {
 		"fp" => cmd_fp(args),
 		"parse" => cmd_parse(args),
 		"freeze" => cmd_freeze(args),
+		"cw" => container::cmd_cw(args),
+		"cr" => container::cmd_cr(args),
 		other => Err(format!("unknown command {other}")),
 	}));
 	match r {
